@@ -88,6 +88,16 @@ Definition set_path (st : cstore) (root : nat) (path : list Z) (k : Z) (v : cval
             end
   end.
 
+(* del self[p1]..[pn][k]   /   self[p1]..[pn].pop(k) *)
+Definition del_path (st : cstore) (root : nat) (path : list Z) (k : Z) : cstore * res unit :=
+  match walk st root path with
+  | Err e => (st, Err e)
+  | Ok l => match nth_error st l with
+            | Some nd => if od_mem nd k then (set_nth st l (od_del nd k), Ok tt) else (st, Err KeyError)
+            | None => (st, Err AttributeError)
+            end
+  end.
+
 (* self[p1]..[pn][k] *)
 Definition get_path (st : cstore) (root : nat) (path : list Z) (k : Z) : res cval :=
   match walk st root path with
@@ -140,7 +150,8 @@ Inductive cmut :=
 | MSetUnits (a e l t : option (bool * Z))   (* set_internal_units: None = not given; (is a unit, atom) *)
 | MSetNcpu (n : Z)                          (* set_ncpu(n) *)
 | MSetWd (absv : Z)                         (* set_wd(path): absv = atom of os.path.abspath(path or current) *)
-| MSetItem (path : list Z) (k : Z) (v : Z). (* cfg[p1]..[pn][k] = atom *)
+| MSetItem (path : list Z) (k : Z) (v : Z)  (* cfg[p1]..[pn][k] = atom *)
+| MDelItem (path : list Z) (k : Z).         (* del cfg[p1]..[pn][k] / cfg[p1]..[pn].pop(k) *)
 
 Definition set_unit (st : cstore) (root : nat) (key : Z) (u : option (bool * Z)) : cstore * res unit :=
   match u with
@@ -180,6 +191,7 @@ Definition cfg_apply (st : cstore) (root : nat) (m : cmut) : cstore * res unit :
       | Ok _ => set_path st root [k_project] k_working_directory (VAtom (cfg_set_wd_val absv))
       end
   | MSetItem path k v => set_path st root path k (VAtom v)
+  | MDelItem path k => del_path st root path k
   end.
 
 (* is_tracing_enabled *)
@@ -300,3 +312,12 @@ Definition wtrace (fuel : nat) (ops : list wop)
               (idx (wusers w))) (idx (winsts w)) in
   (rcs, map (fun r => tree_of fuel st (VRef r)) (winsts w),
    map (fun r => tree_of fuel st (VRef r)) (wusers w), ii, iu).
+
+(* copy.copy(cfg) / cfg.copy(): Python's shallow copy — a new top-level dict with
+   the SAME nested dictionaries.  Not a step of the world: it is the declared
+   exception to the isolation theorems (see Prop_C20.v, ..._shallow_copy_refuted). *)
+Definition cfg_shallow (st : cstore) (root : nat) : cstore * nat :=
+  match nth_error st root with
+  | Some nd => (st ++ [nd], length st)
+  | None => (st, root)
+  end.
